@@ -24,7 +24,8 @@ theorem decMask_eq_wrap_and (x k : Nat) (hk : k ≤ 64) (hx : x < 2 ^ 64) :
     subst h0
     have h1 : (0 + 2 ^ 64 - 1) % 2 ^ 64 = 2 ^ 64 - 1 := by decide
     rw [h1]
-    obtain ⟨e, rfl⟩ : ∃ e, 64 = k + e := ⟨64 - k, by omega⟩
+    obtain ⟨e, he⟩ : ∃ e, 64 = k + e := ⟨64 - k, by omega⟩
+    rw [he]
     have hpk : 0 < 2 ^ k := Nat.two_pow_pos k
     have hpe : 0 < 2 ^ e := Nat.two_pow_pos e
     have : 2 ^ (k + e) - 1 = 2 ^ k * (2 ^ e - 1) + (2 ^ k - 1) := by
@@ -164,7 +165,7 @@ theorem upperPow2_ge (n : Nat) (h : n ≤ Gen.MAX_POW_TWO) : n ≤ upperPow2 n :
   · have := lt_two_pow_bits (n - 1); omega
 
 /-- the *least* power of two that is `≥ n` -/
-theorem upperPow2_least (n k : Nat) (h : n ≤ 2 ^ k) (hk : 2 ^ k ≤ Gen.MAX_POW_TWO) : upperPow2 n ≤ 2 ^ k := by
+theorem upperPow2_least (n k : Nat) (h : n ≤ 2 ^ k) : upperPow2 n ≤ 2 ^ k := by
   rw [upperPow2_eq]
   split
   · omega
